@@ -7,56 +7,56 @@ From TL Require Import Lib.Base Lib.GenTypes Gen.OrchHistGen Model.OrchHist Mode
      Proofs.OrchHistBase Proofs.OrchHistMain Proofs.OrchHistApi.
 
 (* 1. For every rule that judges files one at a time: a directory run and a file-list run report exactly the
-      union of what linting each contained file on its own reports — from any object state whose ignore parser holds the current patterns, for every quirk vector. *)
+      union of what linting each contained file on its own reports — from any object state that holds the current patterns and configuration (`current`), for every quirk vector. *)
 Theorem C10_dir_is_union :
-  forall V perfile rep_blocks rep_consts rep_st hard_excl ignored ign_path in_dir q st fs d l,
-  coherent ignored st -> ppats st = fs_get fs ign_path ->
-  o_pf (snd (step V perfile rep_blocks rep_consts rep_st hard_excl ignored ign_path in_dir q (st, fs) (LintDir d l)))
-  = flat_map (fun p => o_pf (fresh V perfile rep_blocks rep_consts rep_st hard_excl ignored ign_path in_dir q fs (LintFile p))) (walk in_dir fs d l)
-  /\ o_pf (snd (step V perfile rep_blocks rep_consts rep_st hard_excl ignored ign_path in_dir q (st, fs) (ApiLint (TDir d l))))
-  = flat_map (fun p => o_pf (fresh V perfile rep_blocks rep_consts rep_st hard_excl ignored ign_path in_dir q fs (LintFile p))) (walk in_dir fs d l).
+  forall V perfile perfile_fp rep_blocks rep_consts rep_st hard_excl ignored ign_path cfg_path in_dir q st fs d l,
+  coherent ignored st -> current ign_path cfg_path q st fs ->
+  o_pf (snd (step V perfile perfile_fp rep_blocks rep_consts rep_st hard_excl ignored ign_path cfg_path in_dir q (st, fs) (LintDir d l)))
+  = flat_map (fun p => o_pf (fresh V perfile perfile_fp rep_blocks rep_consts rep_st hard_excl ignored ign_path cfg_path in_dir q fs (LintFile p))) (walk in_dir fs d l)
+  /\ o_pf (snd (step V perfile perfile_fp rep_blocks rep_consts rep_st hard_excl ignored ign_path cfg_path in_dir q (st, fs) (ApiLint (TDir d l))))
+  = flat_map (fun p => o_pf (fresh V perfile perfile_fp rep_blocks rep_consts rep_st hard_excl ignored ign_path cfg_path in_dir q fs (LintFile p))) (walk in_dir fs d l).
 Proof. exact dir_is_union. Qed.
 Print Assumptions C10_dir_is_union.
 
 Theorem C10_files_is_union :
-  forall V perfile rep_blocks rep_consts rep_st hard_excl ignored ign_path in_dir q st fs ps,
-  coherent ignored st -> ppats st = fs_get fs ign_path ->
-  o_pf (snd (step V perfile rep_blocks rep_consts rep_st hard_excl ignored ign_path in_dir q (st, fs) (LintFiles ps)))
-  = flat_map (fun p => o_pf (fresh V perfile rep_blocks rep_consts rep_st hard_excl ignored ign_path in_dir q fs (LintFile p))) ps.
+  forall V perfile perfile_fp rep_blocks rep_consts rep_st hard_excl ignored ign_path cfg_path in_dir q st fs ps,
+  coherent ignored st -> current ign_path cfg_path q st fs ->
+  o_pf (snd (step V perfile perfile_fp rep_blocks rep_consts rep_st hard_excl ignored ign_path cfg_path in_dir q (st, fs) (LintFiles ps)))
+  = flat_map (fun p => o_pf (fresh V perfile perfile_fp rep_blocks rep_consts rep_st hard_excl ignored ign_path cfg_path in_dir q fs (LintFile p))) ps.
 Proof. exact files_is_union. Qed.
 Print Assumptions C10_files_is_union.
 
 Theorem C10_api_file_perfile :
-  forall V perfile rep_blocks rep_consts rep_st hard_excl ignored ign_path in_dir q fs p c,
+  forall V perfile perfile_fp rep_blocks rep_consts rep_st hard_excl ignored ign_path cfg_path in_dir q fs p c,
   fs_get fs p = Some c ->
-  o_pf (api_run V perfile rep_blocks rep_consts rep_st hard_excl ignored ign_path in_dir q fs (TFile p))
-  = o_pf (fresh V perfile rep_blocks rep_consts rep_st hard_excl ignored ign_path in_dir q fs (LintFile p)).
+  o_pf (api_run V perfile perfile_fp rep_blocks rep_consts rep_st hard_excl ignored ign_path cfg_path in_dir q fs (TFile p))
+  = o_pf (fresh V perfile perfile_fp rep_blocks rep_consts rep_st hard_excl ignored ign_path cfg_path in_dir q fs (LintFile p)).
 Proof. exact api_file_perfile. Qed.
 Print Assumptions C10_api_file_perfile.
 
 (* 2. Same target, same configuration: Linter.lint and the command line return the same, cross-file findings
       included — for a directory and (since fix f7c62f4, read from the source) for a single file, under every quirk vector. *)
 Theorem C10_api_eq_cli_dir :
-  forall V perfile rep_blocks rep_consts rep_st hard_excl ignored ign_path in_dir q fs d l,
-  cli_run V perfile rep_blocks rep_consts rep_st hard_excl ignored ign_path in_dir q fs [] [(d, l)]
-  = [api_run V perfile rep_blocks rep_consts rep_st hard_excl ignored ign_path in_dir q fs (TDir d l)].
+  forall V perfile perfile_fp rep_blocks rep_consts rep_st hard_excl ignored ign_path cfg_path in_dir q fs d l,
+  cli_run V perfile perfile_fp rep_blocks rep_consts rep_st hard_excl ignored ign_path cfg_path in_dir q fs [] [(d, l)]
+  = [api_run V perfile perfile_fp rep_blocks rep_consts rep_st hard_excl ignored ign_path cfg_path in_dir q fs (TDir d l)].
 Proof. exact api_eq_cli_dir. Qed.
 Print Assumptions C10_api_eq_cli_dir.
 
 Theorem C10_api_eq_cli_file :
-  forall V perfile rep_blocks rep_consts rep_st hard_excl ignored ign_path in_dir q fs p c,
+  forall V perfile perfile_fp rep_blocks rep_consts rep_st hard_excl ignored ign_path cfg_path in_dir q fs p c,
   fs_get fs p = Some c ->
-  cli_run V perfile rep_blocks rep_consts rep_st hard_excl ignored ign_path in_dir q fs [p] []
-  = [api_run V perfile rep_blocks rep_consts rep_st hard_excl ignored ign_path in_dir q fs (TFile p)].
+  cli_run V perfile perfile_fp rep_blocks rep_consts rep_st hard_excl ignored ign_path cfg_path in_dir q fs [p] []
+  = [api_run V perfile perfile_fp rep_blocks rep_consts rep_st hard_excl ignored ign_path cfg_path in_dir q fs (TFile p)].
 Proof. exact api_eq_cli_file. Qed.
 Print Assumptions C10_api_eq_cli_file.
 
 (* 3. Several command-line targets (the files together, then each directory) are reported as independent runs,
       for every quirk vector (the DRY storage is reset by finalize() since fix 8b82489): nothing of an earlier target is reported again. *)
 Theorem C10_cli_targets_independent :
-  forall V perfile rep_blocks rep_consts rep_st hard_excl ignored ign_path in_dir q fs files dirs,
-  cli_run V perfile rep_blocks rep_consts rep_st hard_excl ignored ign_path in_dir q fs files dirs
-  = map (fresh V perfile rep_blocks rep_consts rep_st hard_excl ignored ign_path in_dir q fs) (cli_ops files dirs).
+  forall V perfile perfile_fp rep_blocks rep_consts rep_st hard_excl ignored ign_path cfg_path in_dir q fs files dirs,
+  cli_run V perfile perfile_fp rep_blocks rep_consts rep_st hard_excl ignored ign_path cfg_path in_dir q fs files dirs
+  = map (fresh V perfile perfile_fp rep_blocks rep_consts rep_st hard_excl ignored ign_path cfg_path in_dir q fs) (cli_ops files dirs).
 Proof. exact cli_targets_independent. Qed.
 Print Assumptions C10_cli_targets_independent.
 
@@ -79,9 +79,10 @@ Print Assumptions C10_cli_filters_select_own_package.
 
 (* non-vacuity: with the symbolic rules, a directory run returns the three files' own findings plus the reports *)
 Example C10_nonvacuous :
-  map out_all (sym_cli [] [] 9 [(0, [0; 1; 2])] ideal [(0, 0); (1, 1); (2, 2)] [1] [(0, [2; 0; 1])])
-  = [ [TPer 1 (Some 1); TRep 0 1 [(1, 1)]; TRep 1 0 [(1, 1)]; TRep 2 0 [(1, 1)]];
-      [TPer 2 (Some 2); TPer 0 (Some 0); TPer 1 (Some 1); TRep 0 3 [(2, 2); (0, 0); (1, 1)]; TRep 1 0 [(0, 0); (1, 1); (2, 2)]; TRep 2 0 [(2, 2); (0, 0); (1, 1)]] ]
+  map out_all (sym_cli [] [] 9 8 [(0, [0; 1; 2])] ideal [(0, 0); (1, 1); (2, 2)] [1] [(0, [2; 0; 1])])
+  = [ [TPer 1 (Some 8); TFp 1 (Some 8); TRep 0 1 0 [(1, 8)]; TRep 1 0 0 [(1, 8)]; TRep 2 0 0 [(1, 8)]];
+      [TPer 2 (Some 16); TFp 2 (Some 16); TPer 0 (Some 0); TFp 0 (Some 0); TPer 1 (Some 8); TFp 1 (Some 8);
+       TRep 0 3 0 [(2, 16); (0, 0); (1, 8)]; TRep 1 0 0 [(0, 0); (1, 8); (2, 16)]; TRep 2 0 0 [(2, 16); (0, 0); (1, 8)]] ]
   /\ cli_filter_of "_run_dry_lint" cli_filters = Some ("FStartswith", "dry.")
   /\ fmatch "FStartswith" "dry." "dry.duplicate-code" = true /\ fmatch "FContains" "nesting" "dry.duplicate-code" = false.
 Proof. vm_compute. repeat split; reflexivity. Qed.
